@@ -3,7 +3,7 @@
    quantified over texts, trees, record lists and diff scripts of any size. *)
 From Coq Require Import String Ascii.
 From Coq Require Import List Bool NArith PArith Arith.
-From PV Require Import Base.PyData C03.Model C03.Check C03.Proofs C03.Proofs2 C03.Proofs3 C03.Proofs4 C03.Proofs5.
+From PV Require Import Base.PyData C03.Model C03.Check C03.Proofs C03.Proofs2 C03.Proofs3 C03.Proofs4 C03.Proofs5 C03.Proofs6.
 Import ListNotations.
 
 (* ---- 1. NMTranParser.parse: record splitting ------------------------------------------------ *)
@@ -283,3 +283,71 @@ Theorem dollar_at_eof_refused :
     (pre = [] \/ exists p0, pre = p0 ++ [10%N]) -> forallb is_blank bl = true ->
     forall rs, parse tb lark steps_of rule_id is_token_name r1 r2 r3 r4 r5 (pre ++ bl ++ [36%N]) <> Ok rs.
 Proof. exact dollar_at_eof_refused_lemma. Qed.
+
+(* ---- 10. OptionRecord edit methods (records/option_record.py) as surgery on the root's children ---------------- *)
+(* For all child lists (any trees, any rule ids), keys and values; None = the Python method raises. *)
+
+(* set_option either changes ONE option (the first with that key) in place or inserts [WS; KEY=VALUE] at one position;
+   every other child — other options, comments, newlines, blanks — is untouched and in order. *)
+Theorem set_option_frame :
+  forall (r_option r_KEY r_VALUE r_EQUAL r_WS : positive) (ch : list node) (key v : text) (res : list node),
+    set_option r_option r_KEY r_VALUE r_EQUAL r_WS ch key v = Some res ->
+    (exists pre o post, ch = pre ++ o :: post /\ res = pre ++ replace_first (Tok r_VALUE None v) o :: post /\
+                        keyed r_option r_KEY key o = true /\ forallb (fun x => negb (keyed r_option r_KEY key x)) pre = true) \/
+    (exists pre post, ch = pre ++ post /\
+                      res = pre ++ [ws_token r_WS; create_option r_option r_KEY r_VALUE r_EQUAL key (Some v)] ++ post).
+Proof. exact set_option_frame_lemma. Qed.
+
+(* Read back: when the option that is set has a VALUE child (guard g_has_value; see Refuted), it has the new value
+   afterwards and still its key. *)
+Theorem set_option_readback :
+  forall (r_option r_KEY r_VALUE : positive) (ch : list node) (key v : text) (r : list node),
+    r_KEY <> r_VALUE ->
+    set_go r_option r_KEY r_VALUE key v ch = Some (Some r) ->
+    (forall o, find (keyed r_option r_KEY key) ch = Some o ->
+               match o with Tree _ _ cc => has_rule r_VALUE cc = true | Tok _ _ _ => False end) ->
+    exists pre o' post, r = pre ++ o' :: post /\ forallb (fun x => negb (keyed r_option r_KEY key x)) pre = true /\
+                        keyed r_option r_KEY key o' = true /\ get_value r_VALUE o' = Some v.
+Proof. exact set_option_readback_lemma. Qed.
+
+(* remove_option: everything that is neither blank space nor an option with that key survives, unchanged and in order,
+   and no option with that key is left. *)
+Theorem remove_option_frame :
+  forall (r_option r_KEY r_WS : positive) (ch : list node) (key : text) (res : list node),
+    remove_option r_option r_KEY r_WS ch key = Some res ->
+    filter (kept r_option r_KEY r_WS key) res = filter (kept r_option r_KEY r_WS key) ch /\
+    forallb (fun x => negb (target_b r_option r_KEY key x)) res = true.
+Proof.
+  intros r_option r_KEY r_WS ch key res H. split; [apply remove_option_frame_lemma; exact H|].
+  unfold remove_option in H. eapply remove_go_no_target; [exact H | reflexivity].
+Qed.
+
+(* It does not raise when the first child is neither blank space nor an option with that key (guard; see Refuted). *)
+Theorem remove_option_total :
+  forall (r_option r_KEY r_WS : positive) (c : node) (tl : list node) (key : text),
+    is_ws_tok r_WS c = false -> is_target r_option r_KEY key c = Some false ->
+    forallb (fun n => match is_target r_option r_KEY key n with Some _ => true | None => false end) tl = true ->
+    exists res, remove_option r_option r_KEY r_WS (c :: tl) key = Some res.
+Proof. exact remove_option_total_lemma. Qed.
+
+(* replace_option maps over the children: every child that is not an option is the same object at the same position. *)
+Theorem replace_option_frame :
+  forall (r_option r_KEY r_VALUE : positive) (old new : text) (ch res : list node),
+    replace_option r_option r_KEY r_VALUE ch old new = Some res ->
+    Forall2 (fun c c' => is_option r_option c = false -> c' = c) ch res.
+Proof. exact replace_option_frame_lemma. Qed.
+
+(* append_option puts [separator; option] at one position of the child list and drops at most one trailing child. *)
+Theorem append_option_frame :
+  forall (r_option r_WS r_NEWLINE : positive) (ch : list node) (nd : node) (res : list node),
+    append_option_node r_option r_WS r_NEWLINE ch nd = Some res ->
+    exists i j sep, (j = length ch \/ S j = length ch) /\ res = firstn i ch ++ sep :: nd :: firstn (j - i) (skipn i ch) /\
+                    (sep = ws_token r_WS \/ sep = nl_token r_NEWLINE).
+Proof. exact append_option_node_shape. Qed.
+
+(* prepend_option inserts [option; WS] behind the first child. *)
+Theorem prepend_option_frame :
+  forall (r_option r_KEY r_VALUE r_EQUAL r_WS : positive) (ch : list node) (key : text) (value : option text),
+    prepend_option r_option r_KEY r_VALUE r_EQUAL r_WS ch key value =
+    firstn 1 ch ++ [create_option r_option r_KEY r_VALUE r_EQUAL key value; ws_token r_WS] ++ skipn 1 ch.
+Proof. reflexivity. Qed.
